@@ -38,10 +38,47 @@ def jobs_for(tier):
                 W = 256 if tier == 'quick' else 384
                 jobs.append(dict(id='%s/%s%s' % (t['id'], codec, '/numeric' if ne else ''),
                                  template=t['id'], codec=codec, numeric_enums=ne, tier=tier, W=W))
+    for k in ('per-encoder', 'uper-encoder', 'oer-encoder', 'oer-length'):
+        jobs.append(dict(id='kernel/' + k, kernel=k, tier=tier, codec=k.split('-')[0], numeric_enums=False, W=256))
     return jobs
 
 
+def make_kernel_harness(job):
+    from lib import kernels
+    k = job['kernel']
+    mods = {'per': C.per, 'uper': C.uper, 'oer': C.oer}
+
+    def harness(ctx):
+        with shimmed(C.CODEC_MODS):
+            ctx.describe = lambda m: {'state': {n: m.eval(v, model_completion=True).as_long()
+                                                for n, v in ctx.eng.vars.items()}}
+            try:
+                if k in ('per-encoder', 'uper-encoder'):
+                    trace, cond, err = kernels.per_encoder_step(ctx, mods[k.split('-')[0]], k == 'per-encoder')
+                elif k == 'oer-encoder':
+                    trace, cond, err = kernels.oer_encoder_step(ctx, C.oer)
+                elif k == 'oer-length':
+                    cond, left = kernels.length_determinant_roundtrip(ctx, C.oer, 'oer')
+                    trace, err = ['append_length_determinant;read_length_determinant'], None
+                    if left != 0:
+                        err = '%r bits left after reading the length determinant back' % (left,)
+                else:
+                    raise HarnessError('unknown kernel %s' % k)
+            except Exception as e:
+                ctx.violation('kernel-raises', '%s: %s' % (type(e).__name__, str(e)[:100]))
+                return
+            ctx.sample({'job': job['id'], 'ops': trace})
+            if err:
+                ctx.violation('kernel-bit-accounting', '%s after %s' % (err, trace))
+                return
+            ctx.prove('kernel-output-equals-bit-model', cond, info=' ; '.join(trace))
+            ctx.note('kernel-proved')
+    return harness
+
+
 def make_harness(job):
+    if job.get('kernel'):
+        return make_kernel_harness(job)
     tpl = corpus.BY_ID[job['template']]
     codec = job['codec']
     parsed = asn1tools.parse_string(tpl['text'])
@@ -118,9 +155,52 @@ def make_harness(job):
     return harness
 
 
+def replay_kernel(v):
+    """re-run a kernel witness concretely: same harness, every variable pinned to the model"""
+    from symcore import Engine, run_path
+    from lib.runner import Ctx
+    job = v['job']
+    vals = v['witness']['vars']
+    h = make_kernel_harness(job)
+
+    class PinCtx(Ctx):
+        def _pin(self, name, var):
+            self.eng.assume(var == vals[name])
+
+        def bv(self, name, bits):
+            x = super().bv(name, bits)
+            self._pin(name, x)
+            return x
+
+        def bytes(self, name, n):
+            b = super().bytes(name, n)
+            for i, c in enumerate(b.c):
+                self._pin('%s[%d]' % (name, i), c)
+            return b
+
+        def choose(self, name, n):
+            if n <= 1:
+                return super().choose(name, n)
+            self.shape[name] = vals[name]
+            return vals[name]
+
+        def int(self, name, lo, hi):
+            x = super().int(name, lo, hi)
+            if isinstance(x, int):
+                return x
+            self._pin(name, x.e)
+            return x
+    res, eng = run_path(h, [], 256, ctx_factory=lambda e, r: PinCtx(e, r, job, []))
+    if res.violations:
+        return True, '%s: %s with state %s' % (res.violations[0]['label'], res.violations[0]['info'], vals)
+    return False, 'kernel ok on the concrete state %s' % (vals,)
+
+
 def replay(v):
     """re-run the witness on the real, unshimmed library through the public API"""
     job = v['job']
+    if job.get('kernel'):
+        return replay_kernel(v)
     tpl = corpus.BY_ID[job['template']]
     spec = asn1tools.compile_string(tpl['text'], job['codec'], numeric_enums=job['numeric_enums'])
     value = unjson(v['witness'].get('inputs'))
@@ -178,7 +258,7 @@ def main(argv=None):
     return runner.run_check(
         PROP, 'checks.C01', jobs, a.tier, a.seed, replay=replay, nproc=a.nproc,
         functions=C.functions_of(*C.CODEC_MODS),
-        bounds=dict(b.as_dict(), templates=len({j['template'] for j in jobs}), W=jobs[0]['W'] if jobs else 0),
+        bounds=dict(b.as_dict(), templates=len({j['template'] for j in jobs if 'template' in j}), W=jobs[0]['W'] if jobs else 0),
         assumptions=['values are those accepted by the library\'s own check_types/check_constraints',
                      'BIT STRING values carry the minimal number of octets for their bit count'],
         stubs=['int/bytes/bytearray/str/hex/bin/ord/chr + binascii/struct shims injected into '
